@@ -56,6 +56,10 @@ def construction_rules(ctx, R, E):
     nfa.rule_add(ctx, R, E.NR, rules={"VAL-ADD", "STAT-NS"})
     nfa.rule_num_bytes(ctx, R, E.NR)
     da.rule_build_entry(ctx, R, E.NR, E.BR, rules={"B-MOVE"})
+    da.rule_sanitiser(ctx, R, E.NR, E.BR)
+    da.rule_array_growth(ctx, R, E.NR, E.BR)
+    helper.rule_helper(ctx, R)
+    pure.rule_mapper(ctx, R)
 
 
 def run_C01(ctx, R):
@@ -63,9 +67,6 @@ def run_C01(ctx, R):
     search.rule_iter_standard(ctx, R, kinds=("overlapping",))
     search.rule_trans(ctx, R)
     construction_rules(ctx, R, E)
-    da.rule_sanitiser(ctx, R, E.NR, E.BR)
-    da.rule_array_growth(ctx, R, E.NR, E.BR)
-    helper.rule_helper(ctx, R)
 
 
 def run_C02(ctx, R):
